@@ -36,7 +36,7 @@ let check (prop : string) (b : block) : verdict list =
     let out = ref [] in
     let add v = out := v :: !out in
     let z l = Conv.zlist_of_ints l in
-    (* oracle bookkeeping for paging: per assumption set, what was handed out in this cycle *)
+    (* oracle bookkeeping for paging: per assumption SET, what was handed out in this cycle *)
     let cycles : (int list, (int, unit) Hashtbl.t) Hashtbl.t = Hashtbl.create 8 in
     let last_sample : (string, string) Hashtbl.t = Hashtbl.create 8 in
     List.iter (fun o ->
@@ -69,7 +69,11 @@ let check (prop : string) (b : block) : verdict list =
                     if k > 0 && cnt = 0 then
                       add (Viol (sig_of "enum" "unsat-mismatch", Printf.sprintf "[%s] returned configurations but no model contains the assumptions" opdesc))
                     else if k > 0 then begin
-                      let key = List.sort compare a in
+                      (* one cycle per SET of assumed literals: since the repair F19 (finding K12) the
+                         implementation keys its cursor by the set, so requests spelled with a repeated
+                         literal continue the cycle of the plain spelling (before: List.sort compare a,
+                         which let every spelling have a cycle of its own and hid K12 from this oracle) *)
+                      let key = List.sort_uniq compare a in
                       let seen = match Hashtbl.find_opt cycles key with
                         | Some h -> h | None -> let h = Hashtbl.create 16 in Hashtbl.replace cycles key h; h in
                       let remaining = cnt - Hashtbl.length seen in
